@@ -51,3 +51,11 @@ add("C08", "exploration",
 text("C08",
      "seeded exploration of packet-fault schedules (loss up to 60 %, duplication, reordering by jitter and long delays, loss bursts, total and one-way outages from 0.1 s to 10 simulated minutes followed by recovery) under 1-3 reliable tubes with both directions active, write-size profiles from 1 byte to several windows; prefix oracle on every Read against the canonical written stream, end-of-stream position oracle at the end that stays open, bounded-liveness oracle (every written byte readable within 5 simulated minutes after the last fault)",
      TB + "; the liveness bound (5 min) is a harness parameter, not mirrored from the code", "deterministic simulation with fault injection (seeded fault-schedule search, prefix/EOF/bounded-liveness oracles)", "DESIGN.md 4 C08")
+
+add("C10", "exploration",
+    [{"name": "junk-datagrams", "quick_s": 40, "thorough_s": 900}],
+    real=["transport (Server, Client, all PQ handshake readers, session message path)", "hopserver.NewVirtualHosts / VirtualHosts.Match", "pkg/glob", "certs parsing", "keys"],
+    stub=["hopserver.NewHopServer's GetCertificate/GetCertList closures are reproduced in the harness around the real matcher (the constructor opens a real socket)"])
+text("C10",
+     "seeded exploration of attacker datagram sequences against a live server and live clients in 5 server configurations (single certificate, virtual hosts with and without fallback, hidden with one and with several certificates): random byte strings with biased lengths, truncations/extensions and single-field mutations of every valid message type captured from the run's own honest traffic, datagrams copying type and session id of live sessions with short or arbitrary remainder, and unauthenticated handshake prefixes produced by real client code with adversarial server names (empty, nil, glob metacharacters, 252 bytes, every and unknown name types) and right/wrong KEM keys, from third and spoofed addresses, interleaved with an honest handshake in flight; oracle: no panic in any goroutine (process-level), sessions established before still deliver probes both ways, a fresh honest handshake and probe succeed afterwards",
+     TB + "; a panic anywhere in the process is attributed to the run that was executing", "deterministic simulation with fault injection (seeded adversarial-input and schedule search, liveness probes)", "DESIGN.md 4 C10")
